@@ -126,7 +126,7 @@ def rec_spec(rng):
     return gram.Spec(classes, 0, considered)
 
 
-def one(h: Harness, spec, limit, b=None):
+def one(h: Harness, spec, limit, b=None, superset=None):
     b = b if b is not None else gram.build(spec)
     try:
         g = b.extract()
@@ -136,6 +136,21 @@ def one(h: Harness, spec, limit, b=None):
     if mind >= 1000000:
         return
     line_spec = gram.spec_sx(spec)
+    # other grammars over the same classes come into being before this one is used (a subset of the productions, the
+    # usable sub-grammar): what is creatable from THIS grammar must not move
+    try:
+        from geneticengine.grammar.grammar import extract_grammar
+        import warnings
+        with warnings.catch_warnings():
+            warnings.simplefilter("ignore")
+            g.usable_grammar()
+            if superset is not None:   # a RICHER grammar (more productions, hence smaller minimum depths) over the same classes
+                extract_grammar([b.classes[i] for i in superset], b.start, spec.expansion)
+            elif len(b.considered()) > 1:   # poorer ones (larger minimum depths)
+                extract_grammar(b.considered()[1:], b.start, spec.expansion)
+                extract_grammar(b.considered()[:-1], b.start, spec.expansion)
+    except Exception:  # noqa: BLE001
+        pass
     for d in range(mind, mind + 4):
         reach = {}
         for kind in ("grow", "pigrow", "full"):
@@ -169,7 +184,13 @@ def one(h: Harness, spec, limit, b=None):
         # the model's enumeration of the bounded language
         h.flush()
         from core import run_driver
-        out = run_driver([sx(["C04", "language", line_spec, d])])[0]
+        try:
+            out = run_driver([sx(["C04", "language", line_spec, d])], timeout=90, mem_gb=6)[0]
+        except InfraError:
+            # the enumerator ran out of memory / time: the language at this depth is too large to list (the depth comes from
+            # the implementation's own minimum, which a change may have shifted); what was queued before is still judged
+            h.count("language-too-large-to-enumerate")
+            return
         if out == "not-finite-choice":
             h.count("not-finite-choice")
             return
@@ -234,6 +255,11 @@ def corpus():
         # a list of a UNION is the production's only way back to the start symbol (recursion analysis must look inside)
         gram.Spec([C("A0", True, None), C("Lit", False, 0, []),
                    C("Call", False, 0, [("args", ("ann", ("list", ("union", ("cls", 1), ("cls", 2))), ("listSize", 1, 2)))])], 0, [1, 2]),
+        # a dependent refinement next to a nested concrete production with a like-named field (not finite-choice for the
+        # language enumerator: judged by the draw-by-draw creation lines and the membership predicate)
+        gram.Spec([C("A0", True, None), C("Step", False, None, [("lo", ("ann", "int", ("intRange", 1, 2)))]),
+                   C("Window", False, 0, [("lo", ("ann", "int", ("intRange", 0, 2))), ("step", ("cls", 1)), ("hi", ("ann", "int", ("depIntRangeLo", "lo", 3)))]),
+                   C("Leaf", False, 0, [])], 0, [2, 3, 1]),
         # possibly-empty list at the depth frontier (the open finding's witness)
         gram.Spec([C("A0", True, None), C("L", False, 0, []),
                    C("P", False, 0, [("xs", ("ann", ("list", ("cls", 0)), ("listSize", 0, 1))), ("k", ("ann", "int", ("intRange", 0, 1)))])], 0, [1, 2]),
@@ -273,6 +299,14 @@ def run(h: Harness):
     retargeted(h, limit)
     for spec in corpus():
         one(h, spec, limit)
+    # each corpus grammar once more WITHOUT one of its productions, while the full grammar exists beside it
+    import copy
+    for spec in corpus():
+        for drop in spec.considered[:2]:
+            sub = copy.deepcopy(spec)
+            sub.considered = [c for c in spec.considered if c != drop]
+            one(h, sub, limit, superset=list(spec.considered))
+            h.count("sub-grammar-beside-full-grammar")
     for i in range(h.n(10, 50)):
         one(h, rec_spec(rng) if i % 3 == 0 else fc_spec(rng), limit)
     h.exhaustive = True
